@@ -134,7 +134,7 @@ func FuzzC04(f *testing.F, name string, tg Target, c0 uint64, seeds [][]byte) {
 		if pan != "" {
 			t.Fatalf("[c04.panic.%s] %s", name, tailOf(pan, 1500))
 		}
-		if d := m1.TotalAlloc - m0.TotalAlloc; d > AllocBudget(len(in), c0) {
+		if d := m1.TotalAlloc - m0.TotalAlloc; d > allocBudgetFor(in, c0) {
 			t.Fatalf("[c04.alloc.%s] %d bytes allocated for an input of %d bytes", name, d, len(in))
 		}
 	})
